@@ -242,7 +242,20 @@ func genRoute(r *common.Rng, c *Case, idx int, invalid bool) RouteSpec {
 	if hasResolvers && r.Chance(1, 4) {
 		rt.Resolver = common.Pick(r, c.Resolvers)
 	}
-	if invalid {
+	if invalid && r.Chance(1, 3) {
+		// only the port lists are wrong (zero port, empty or inverted range, every port)
+		for {
+			ports, items, _ := genPorts(r)
+			if invalidPorts(ports, items) {
+				if r.Bool() {
+					rt.FromPorts, rt.FromRanges = ports, items
+				} else {
+					rt.ToPorts, rt.ToRanges = ports, items
+				}
+				break
+			}
+		}
+	} else if invalid {
 		switch r.Intn(12) {
 		case 0:
 			rt.Name = common.Pick(r, []string{"", "default"})
